@@ -263,7 +263,7 @@ def convStep (ts : TypeSystem) (cas : Cas) (t : TypeRec) (heap1 : Heap) (addr : 
 
 theorem parseFs_steps (K : Consts) (ts : TypeSystem) (tsIdx : Nat) (s : RState) (e : JFs) (t : TypeRec) (x : Int)
     (nums : List (String × Val)) (o0 : Obj) (heap1 heapF : Heap) (ds : List Deferred)
-    (hty : e.ty.endsWith "[]" = false) (hgt : getType ts e.ty = .ok t) (hid : e.id = some x)
+    (hty : e.ty.endsWith "[]" = false) (hgt : getTypeExact ts e.ty = .ok t) (hid : e.id = some x)
     (hpa : isPrimitiveArray K t.name = false) (hfa : t.name ≠ FS_ARRAY)
     (hnums : parseNums (e.feats.filter numP) = .ok nums)
     (hcons : construct t tsIdx (some x) ((e.feats.filter plainP).map kw ++ nums) = .ok o0)
